@@ -777,6 +777,12 @@ var c20Graphs = []string{
 	`{"openapi":"3.0.0","info":{"title":"t","version":"1"},"paths":{},"components":{"schemas":{"A":{"$ref":"#/components/schemas/B/additionalProperties"},"B":{"$ref":"#/components/schemas/C"},"C":{"type":"object"}}}}`,
 	// path item references, callbacks that refer to paths
 	`{"openapi":"3.0.0","info":{"title":"t","version":"1"},"paths":{"/a":{"$ref":"#/paths/~1b"},"/b":{"get":{"responses":{"200":{"description":"ok"}}}},"/c":{"$ref":"#/paths/~1c"},"/d":{"$ref":"#/paths/~1e"},"/e":{"$ref":"#/paths/~1d"}}}`,
+	// a header among the headers of an encoding of its own content (Validate has no visited set for headers)
+	`{"openapi":"3.0.0","info":{"title":"t","version":"1"},"paths":{"/a":{"get":{"responses":{"200":{"description":"ok","headers":{"h":{"$ref":"#/components/headers/H"}}}}}}},"components":{"headers":{"H":{"content":{"multipart/form-data":{"encoding":{"f":{"headers":{"X":{"$ref":"#/components/headers/H"}}}}}}},"I":{"schema":{"type":"string"}}}}}`,
+	// an inline callback whose path item refers back to the path item of its operation
+	`{"openapi":"3.0.0","info":{"title":"t","version":"1"},"paths":{"/a":{"get":{"callbacks":{"c":{"/cb":{"$ref":"#/paths/~1a"}}},"responses":{"200":{"description":"ok"}}}}}}`,
+	// a path item with $ref and content; a reference into an extension member
+	`{"openapi":"3.0.0","info":{"title":"t","version":"1"},"paths":{"/a":{"$ref":"#/paths/~1b","get":{"parameters":[{"$ref":"#/components/parameters/P"}],"responses":{"200":{"description":"ok"}}}},"/b":{"get":{"responses":{"200":{"$ref":"#/x-r"}}}}},"components":{"parameters":{"P":{"name":"p","in":"query","schema":{"type":"string"}}}},"x-r":{"description":"d","headers":{"h":{"$ref":"#/x-r"}}}}`,
 	// null server variables, null members everywhere
 	`{"openapi":"3.0.0","info":{"title":"t","version":"1"},"servers":[{"url":"https://{a}.x","variables":{"a":null}},null],"paths":{"/a":null,"/b":{"get":null,"parameters":[null],"servers":[null]}},"components":{"schemas":{"A":null},"responses":{"R":null},"parameters":{"P":null},"headers":{"H":null},"requestBodies":{"B":null},"securitySchemes":{"K":null},"examples":{"E":null},"links":{"L":null},"callbacks":{"C":null}},"tags":[null],"security":[null]}`,
 }
